@@ -234,9 +234,17 @@ func (s *Sorts) fieldVar(t types.Type, i int) string {
 	key, st := structKey(t)
 	return s.heapVar("F!"+key+"!"+st.Field(i).Name(), "(Array Int "+s.sortOf(st.Field(i).Type())+")")
 }
+// elemVar: the heap variable holding the backing arrays of slices with this
+// element type. Arrays of different Go element types cannot alias (no unsafe in
+// /repo), so each element type gets its own variable: "E!<sort>:<type>"
+// (struct sorts are already named after their type).
 func (s *Sorts) elemVar(elem types.Type) string {
 	so := s.sortOf(elem)
-	return s.heapVar("E!"+so, "(Array Int (Array Int "+so+"))")
+	name := "E!" + so
+	if so == "Int" || so == "Iface" || so == "Str" || so == "Bool" || so == "F64" || so == "Slice" {
+		name += ":" + canonicalTypeName(elem)
+	}
+	return s.heapVar(name, "(Array Int (Array Int "+so+"))")
 }
 func (s *Sorts) cellVar(elem types.Type) string {
 	so := s.sortOf(elem)
@@ -329,4 +337,18 @@ func isPointerLike(t types.Type) bool {
 func constTerm(z string) string {
 	z = strings.ReplaceAll(z, "nil_iface", "(mk_iface 0 0)")
 	return strings.ReplaceAll(z, "nil_slice", "(mk_slice 0 0 0 0)")
+}
+
+// canonicalTypeName: one name per Go type (byte and uint8, rune and int32 are the same type).
+func canonicalTypeName(t types.Type) string {
+	t = types.Unalias(t)
+	if b, ok := t.(*types.Basic); ok {
+		switch b.Kind() {
+		case types.Uint8:
+			return "uint8"
+		case types.Int32:
+			return "int32"
+		}
+	}
+	return types.TypeString(t, nil)
 }
